@@ -59,6 +59,10 @@ Proof.
     split; [eapply fr_trans; eassumption|]. split; [congruence|exact Q2].
 Qed.
 
+Lemma set_core_id p st : sst p = st ->
+  set_core p (raw_start p) (payload_rem p) (padding_rem p) st (output p) (gap_start p) (buffer p) = p.
+Proof. intros <-. destruct p. reflexivity. Qed.
+
 Lemma pfin_q l p' res cap' consumed :
   let p := lp l in
   (ZP res -> ZP (lres l)) ->
@@ -109,7 +113,7 @@ Proof.
       * intros [Z _]. cbn [s_stream] in Z. exfalso. lia.
       * intros [Z _]. cbn [s_stream] in Z. exfalso. lia.
       * intros [Z _]. cbn [s_stream] in Z. exfalso. lia.
-  - apply (SK p (lres l) SSkip (output p)); [tauto|]. destruct p; cbn in Est |- *. rewrite Est. reflexivity.
+  - apply (SK p (lres l) SSkip (output p)); [tauto|]. symmetry. apply set_core_id. exact Est.
   - destruct (nv_run (slice (raw_start p) (raw_start p + pl) (buffer p))) as [ps rest] eqn:En.
     destruct (N.ltb_spec (free_start p - raw_start p) (payload_rem p)) as [Hlt|Hge].
     + apply pfin_q.
@@ -278,10 +282,8 @@ Proof.
       assert (Hlr : len (raw_bytes q) = free_start q - raw_start q) by (unfold raw_bytes; rewrite len_slice_le by lia; reflexivity).
       rewrite Hlr, N.sub_diag. destruct (N.ltb_spec (free_start q - raw_start q) 0) as [Hx|_]; [lia|].
       rewrite N.add_0_r, N.sub_0_r.
-      assert (EQ : set_core (set_core q (raw_start q) (payload_rem q) (padding_rem q) (SValues (vars_of_pairs vars [])) (output q) (gap_start q) (buffer q))
-                     (raw_start q) (payload_rem q) (padding_rem q) (SValues (vars_of_pairs vars [])) (output q) (gap_start q) (buffer q) = q).
-      { destruct q; cbn in Hst |- *. rewrite Hst. reflexivity. }
-      rewrite EQ, HI. cbn [negb].
+      change (vars_of_pairs vars []) with vars. rewrite !(set_core_id q (SValues vars) Hst).
+      rewrite HI. cbn [negb].
       destruct (N.eqb_spec (payload_rem q) 0) as [H0|_]; [lia|]. cbn [andb]. reflexivity. }
   rewrite GOAL. cbn [l0 lp lres]. rewrite HI. reflexivity.
 Qed.
@@ -603,7 +605,7 @@ Proof.
   intros (G & Hd & (C1 & C2 & C3 & C4 & C5 & C6 & C7) & Hsp & Hlk) Hf.
   destruct fuel as [|f]; [lia|].
   assert (Esb : stream_buffer (rsp r) = []) by (unfold stream_buffer; rewrite C4, C5; apply slice_nil; lia).
-  assert (Er : mkR (rsp r) (rwriteable r) false (raborted r) = r) by (destruct r; cbn in Hlk |- *; rewrite Hlk; reflexivity).
+  assert (Er : mkR (rsp r) (rwriteable r) false (raborted r) = r) by (rewrite <- Hlk; destruct r; reflexivity).
   assert (EPO : forall r0, rsp r0 = rsp r -> poll_output (S f) r0 w = (PReady (inl tt), mkR (rsp r0) (rwriteable r0) false (raborted r0), w)).
   { intros r0 E0. cbn [poll_output]. rewrite E0, C7. reflexivity. }
   assert (MAIN : (match poll_output (S f) r w with
@@ -874,6 +876,415 @@ Proof.
 Qed.
 End SimA.
 
+(* ================================================================================================ *)
+(* Part B: nothing is written after a failed write (C12)                                            *)
+(* ================================================================================================ *)
+Lemma cons_nonnil {A} (x : A) l : x :: l <> [].
+Proof. discriminate. Qed.
+
+Section PartB.
+Variable k : N.
+Variable post : list N.
+Hypothesis Hk : plain_fault k.
+
+(* the fault has not been reached / the fault was answered to the last write call *)
+Definition Bef (w : world) : Prop := exists s, wscript w = s ++ k :: post /\ no_fault s.
+Definition Aft (w : world) : Prop := wscript w = post.
+Definition nab (e : N) : Prop := e <> EK_Aborted.
+
+Lemma Bef_ws w w' : wscript w' = wscript w -> Bef w -> Bef w'.
+Proof. intros E (s & Hs & Hn). exists s. split; [congruence|exact Hn]. Qed.
+Lemma Aft_ws w w' : wscript w' = wscript w -> Aft w -> Aft w'.
+Proof. unfold Aft. congruence. Qed.
+
+(* a computation ends before the fault, or right after it with an error result that ends everything *)
+Definition rpostB {A} (E : A -> Prop) (x : res A) : Prop :=
+  match x with
+  | Ok a w' => Bef w' \/ (Aft w' /\ E a)
+  | Halt _ w' => Bef w'
+  end.
+Definition ppostB {A} (p : pres (A + N)) (w' : world) : Prop :=
+  Bef w' \/ (Aft w' /\ exists e, p = PReady (inr e) /\ nab e).
+Definition E_opt (o : option N) : Prop := exists e, o = Some e /\ nab e.
+
+Lemma nab_wz : nab EK_WriteZero.
+Proof. discriminate. Qed.
+Lemma nab_tr : nab EK_Transport.
+Proof. discriminate. Qed.
+
+Lemma tpw_B offer w p w' : Bef w -> offer <> [] -> t_poll_write offer w = (p, w') ->
+  (Bef w' /\ (p = PWake \/ exists n, p = PReady (inl n) /\ n <> 0)) \/
+  (Aft w' /\ (p = PReady (inl 0) \/ p = PReady (inr EK_Transport))).
+Proof.
+  intros (s & Hs & Hn) Ho. unfold t_poll_write. rewrite Hs. destruct s as [|a s'].
+  - cbn [app]. destruct Hk as [-> | ->].
+    + change (W_ZERO =? 0) with false. change (W_ZERO =? W_ZERO) with true. cbv iota.
+      intros E. injection E as <- <-. right. split; [reflexivity|left; reflexivity].
+    + change (W_ERR =? 0) with false. change (W_ERR =? W_ZERO) with false. change (W_ERR =? W_ERR) with true. cbv iota.
+      intros E. injection E as <- <-. right. split; [reflexivity|right; reflexivity].
+  - cbn [app]. inversion Hn as [|? ? (N1 & N2 & N3) Hn']; subst.
+    assert (BW : forall lg, Bef (w_set_w w (s' ++ k :: post) lg)) by (intros lg; exists s'; split; [reflexivity|exact Hn']).
+    destruct (N.eqb_spec a 0) as [E0|E0]; [intros E; injection E as <- <-; left; split; [apply BW|left; reflexivity]|].
+    destruct (N.eqb_spec a W_ZERO) as [|_]; [contradiction|].
+    destruct (N.eqb_spec a W_ERR) as [|_]; [contradiction|].
+    destruct (N.eqb_spec a W_ERR_AB) as [|_]; [contradiction|].
+    intros E. injection E as <- <-. left. split; [apply BW|]. right. eexists. split; [reflexivity|].
+    pose proof (len_pos_nonnil offer Ho). lia.
+Qed.
+
+Lemma awa_B fuel : forall sel b w, Bef w -> rpostB E_opt (await_write_all fuel sel b w).
+Proof.
+  induction fuel as [|f IH]; intros sel b w HB; [exact HB|]. cbn [await_write_all].
+  destruct b as [|x b']; [left; exact HB|].
+  destruct (t_poll_write (x :: b') w) as [p w1] eqn:ET.
+  destruct (tpw_B _ _ _ _ HB (cons_nonnil _ _) ET) as [(B1 & [->|(n & -> & Hn)])|(A1 & [->| ->])].
+  - unfold on_wake. destruct (sel && stopped (w_bump w1)); [exact B1|]. apply IH. exact B1.
+  - destruct (N.eqb_spec n 0) as [|_]; [contradiction|]. apply IH. exact B1.
+  - change (0 =? 0) with true. cbv iota. right. split; [exact A1|]. exists EK_WriteZero. split; [reflexivity|exact nab_wz].
+  - right. split; [exact A1|]. exists EK_Transport. split; [reflexivity|exact nab_tr].
+Qed.
+
+Lemma poll_output_B fuel : forall r w, Bef w ->
+  ppostB (fst (fst (poll_output fuel r w))) (snd (poll_output fuel r w)).
+Proof.
+  induction fuel as [|f IH]; intros r w HB; [left; exact HB|]. cbn [poll_output].
+  destruct (output_buffer (rsp r)) as [|x o]; [left; exact HB|].
+  destruct (t_poll_write (x :: o) w) as [p w1] eqn:ET.
+  destruct (tpw_B _ _ _ _ HB (cons_nonnil _ _) ET) as [(B1 & [->|(n & -> & Hn)])|(A1 & [->| ->])].
+  - left. exact B1.
+  - destruct (N.eqb_spec n 0) as [|_]; [contradiction|]. apply IH. exact B1.
+  - change (0 =? 0) with true. cbv iota. right. split; [exact A1|]. exists EK_WriteZero. split; [reflexivity|exact nab_wz].
+  - right. split; [exact A1|]. exists EK_Transport. split; [reflexivity|exact nab_tr].
+Qed.
+
+Lemma ppostB_cast {A B} (p : pres (A + N)) (q : pres (B + N)) w :
+  ppostB p w -> (forall e, p = PReady (inr e) -> q = PReady (inr e)) -> ppostB q w.
+Proof. intros [H|(H & e & -> & He)] Hq; [left; exact H|right]. split; [exact H|]. exists e. split; [apply Hq; reflexivity|exact He]. Qed.
+
+Section WithMaxc.
+Variable maxc : N.
+
+Lemma input_loop_B fuel : forall dest new r w, Bef w ->
+  ppostB (fst (fst (input_loop maxc fuel dest new r w))) (snd (input_loop maxc fuel dest new r w)).
+Proof.
+  induction fuel as [|f IH]; intros dest new r w HB; [left; exact HB|]. cbn [input_loop].
+  destruct (sparse maxc (rsp r) new dest) as [p1 s|p1 e s|n]; try (left; exact HB).
+  destruct (s_end s || (0 <? s_stream s)); [left; exact HB|].
+  pose proof (poll_output_B (S f) (mkR (compress p1) (rwriteable r) (rlock r) (raborted r)) w HB) as PO.
+  destruct (poll_output (S f) _ w) as [[po r3] w0]. cbn [fst snd] in PO.
+  destruct po as [[u|e]| |].
+  - destruct PO as [B0|(_ & e & E & _)]; [|discriminate E].
+    destruct (t_poll_read (sinput_space (rsp r3)) w0) as [q w1] eqn:ET.
+    destruct (t_poll_read_rem _ _ _ _ ET) as (_ & WS & _).
+    pose proof (Bef_ws _ _ WS B0) as B1.
+    destruct q as [[b|e]| |]; try (left; exact B1).
+    destruct b as [|x b']; [left; exact B1|]. apply IH. exact B1.
+  - eapply ppostB_cast; [exact PO|]. intros e' E. injection E as ->. reflexivity.
+  - eapply ppostB_cast; [exact PO|]. intros e' E. discriminate E.
+  - eapply ppostB_cast; [exact PO|]. intros e' E. discriminate E.
+Qed.
+
+Lemma poll_input_B fuel dest r w : Bef w ->
+  ppostB (fst (fst (poll_input maxc fuel dest r w))) (snd (poll_input maxc fuel dest r w)).
+Proof.
+  intros HB. unfold poll_input. cbv zeta.
+  assert (EMPTY : ppostB
+    (fst (fst (match poll_output fuel r w with
+     | (PReady (inl _), r', w') => input_loop maxc fuel dest [] r' w'
+     | (PReady (inr e), r', w') => (PReady (inr e), r', w')
+     | (PWake, r', w') => (PWake, r', w')
+     | (PBlock, r', w') => (PBlock, r', w')
+     end)))
+    (snd (match poll_output fuel r w with
+     | (PReady (inl _), r', w') => input_loop maxc fuel dest [] r' w'
+     | (PReady (inr e), r', w') => (PReady (inr e), r', w')
+     | (PWake, r', w') => (PWake, r', w')
+     | (PBlock, r', w') => (PBlock, r', w')
+     end))).
+  { pose proof (poll_output_B fuel r w HB) as PO. destruct (poll_output fuel r w) as [[po r1] w1]. cbn [fst snd] in PO.
+    destruct po as [[u|e]| |].
+    - destruct PO as [B0|(_ & e & E & _)]; [|discriminate E]. apply input_loop_B. exact B0.
+    - eapply ppostB_cast; [exact PO|]. intros e' E. injection E as ->. reflexivity.
+    - eapply ppostB_cast; [exact PO|]. intros e' E. discriminate E.
+    - eapply ppostB_cast; [exact PO|]. intros e' E. discriminate E. }
+  destruct dest as [[|pc]|]; destruct (stream_buffer (rsp r)) as [|x sb]; try exact EMPTY; left; exact HB.
+Qed.
+
+Definition E_in (xr : (N * bytes + N) * rstate) : Prop := exists e, fst xr = inr e /\ nab e.
+
+Lemma await_input_B fuel : forall dest r w, Bef w -> rpostB E_in (await_input maxc fuel dest r w).
+Proof.
+  induction fuel as [|f IH]; intros dest r w HB; [exact HB|]. cbn [await_input].
+  pose proof (poll_input_B (io_fuel w (len (buffer (rsp r)))) dest r w HB) as PI.
+  destruct (poll_input maxc _ dest r w) as [[p r1] w1]. cbn [fst snd] in PI.
+  destruct p as [x| |].
+  - destruct PI as [B1|(A1 & e & E & He)]; [left; exact B1|right]. split; [exact A1|]. exists e. injection E as ->. split; [reflexivity|exact He].
+  - destruct PI as [B1|(_ & e & E & _)]; [|discriminate E]. apply IH. exact B1.
+  - destruct PI as [B1|(_ & e & E & _)]; [|discriminate E]. unfold on_block.
+    destruct (negb (stop_at w1 =? 0) && negb (stopped w1)); [apply IH; exact B1|exact B1].
+Qed.
+
+Definition E_fst {X} (er : option N * X) : Prop := E_opt (fst er).
+
+Lemma do_writeable_B r w : Bef w -> rpostB E_fst (do_writeable maxc r w).
+Proof.
+  intros HB. unfold do_writeable. destruct (rwriteable r); [left; exact HB|].
+  destruct (set_stream (rsp r) _) as [p'| |]; try exact HB.
+  pose proof (await_input_B (io_fuel w 0) None (mkR p' false (rlock r) (raborted r)) w HB) as AI.
+  destruct (await_input maxc _ None _ w) as [[[x|e] r'] w'|o w']; cbn [rpostB] in *.
+  - destruct AI as [B1|(_ & e & E & _)]; [left; exact B1|discriminate E].
+  - destruct AI as [B1|(A1 & e' & E & He)]; [left; exact B1|right]. cbn [fst] in E. injection E as ->.
+    split; [exact A1|]. exists e'. split; [reflexivity|exact He].
+  - exact AI.
+Qed.
+
+(* reads never touch the write script *)
+Lemma await_read_ws fuel sel L w : match await_read fuel sel L w with Ok _ w' | Halt _ w' => wscript w' = wscript w end.
+Proof. pose proof (await_read_rem fuel sel L w) as H. destruct (await_read fuel sel L w) as [[b|e] w'|o w']; apply H. Qed.
+
+Lemma boundary_loop_ws fuel : forall new r w,
+  match boundary_loop maxc fuel new r w with Ok _ w' | Halt _ w' => wscript w' = wscript w end.
+Proof.
+  induction fuel as [|f IH]; intros new r w; [reflexivity|]. rewrite ConnWrites.boundary_loop_S.
+  assert (AFTER : forall p', match ConnWrites.bl_after maxc f r w p' with Ok _ w' | Halt _ w' => wscript w' = wscript w end).
+  { intros p'. unfold ConnWrites.bl_after. cbv zeta. destruct (is_record_boundary p'); [reflexivity|].
+    pose proof (await_read_ws (io_fuel w 0) false (sinput_space (compress p')) w) as AR.
+    destruct (await_read _ false _ w) as [[[|x b]|e] w'|o w']; try exact AR.
+    specialize (IH (x :: b) (mkR (compress p') (rwriteable r) (rlock r) (raborted r)) w').
+    destruct (boundary_loop maxc f _ _ w') as [a w2|o w2]; congruence. }
+  destruct (sparse maxc (rsp r) new None) as [p' s|p' e s|n]; [apply AFTER| |reflexivity].
+  destruct e; try reflexivity. apply AFTER.
+Qed.
+
+Lemma record_boundary_ws r w : match record_boundary maxc r w with Ok _ w' | Halt _ w' => wscript w' = wscript w end.
+Proof. unfold record_boundary. destruct (is_record_boundary (rsp r)); [reflexivity|apply boundary_loop_ws]. Qed.
+
+Definition E_inr {X} (x : X + N) : Prop := exists e, x = inr e.
+
+Lemma close_finish_B r3 d c w : Bef w -> rpostB E_inr (close_finish r3 d c w).
+Proof.
+  intros HB. unfold close_finish. destruct (epilogue _ d c _) as [ep|]; [|exact HB]. cbv zeta.
+  pose proof (awa_B (io_fuel w (len (output_buffer (rsp r3)))) false (output_buffer (rsp r3)) w HB) as W1.
+  destruct (await_write_all _ false (output_buffer (rsp r3)) w) as [[k3|] w3|o w3]; cbn [rpostB] in *.
+  - destruct W1 as [B|(A & _)]; [left; exact B|right; split; [exact A|eexists; reflexivity]].
+  - destruct W1 as [B3|(_ & e & E & _)]; [|discriminate E].
+    pose proof (awa_B (io_fuel w3 (len ep)) false ep w3 B3) as W2.
+    destruct (await_write_all _ false ep w3) as [[k4|] w4|o w4]; cbn [rpostB] in *.
+    + destruct W2 as [B|(A & _)]; [left; exact B|right; split; [exact A|eexists; reflexivity]].
+    + destruct W2 as [B4|(_ & e & E & _)]; [|discriminate E].
+      destruct (N.land _ FLAG_KeepConn =? FLAG_KeepConn); [|left; exact B4].
+      destruct (into_request_parser _) as [rp| |]; [left; exact B4|left; exact B4|exact B4].
+    + exact W2.
+  - exact W1.
+Qed.
+
+Lemma close_tail_B r1 d c w : Bef w -> rpostB E_inr (close_tail maxc r1 d c w).
+Proof.
+  intros HB. rewrite close_tail_unfold. destruct (set_stream (rsp r1) None) as [p2| |]; try exact HB.
+  pose proof (record_boundary_ws (mkR p2 (rwriteable r1) (rlock r1) (raborted r1)) w) as RB.
+  destruct (record_boundary maxc _ w) as [[[k2|] r3] w2|o w2].
+  - left. eapply Bef_ws; eassumption.
+  - apply close_finish_B. eapply Bef_ws; eassumption.
+  - eapply Bef_ws; eassumption.
+Qed.
+
+Lemma do_close_B r d c w : Bef w -> rpostB E_inr (do_close maxc r d c w).
+Proof.
+  intros HB. unfold do_close. pose proof (do_writeable_B r w HB) as DW.
+  destruct (do_writeable maxc r w) as [[[e|] r1] w1|o w1]; cbn [rpostB] in *.
+  - destruct DW as [B1|(A1 & e' & E & He)].
+    + destruct ((e =? EK_Aborted) && raborted r1); [apply close_tail_B; exact B1|left; exact B1].
+    + cbn [fst] in E. injection E as ->. destruct (N.eqb_spec e' EK_Aborted) as [Ha|_]; [contradiction (He Ha)|].
+      cbn [andb]. right. split; [exact A1|eexists; reflexivity].
+  - destruct DW as [B1|(_ & e' & E & _)]; [|discriminate E]. apply close_tail_B. exact B1.
+  - exact DW.
+Qed.
+
+Lemma write_slices_B fuel : forall slices w, Bef w -> rpostB E_opt (write_slices fuel slices w).
+Proof.
+  induction fuel as [|f IH]; intros slices w HB; [exact HB|]. rewrite ConnTotal.write_slices_S.
+  destruct (filter (fun s => negb (len s =? 0)) slices) as [|s1 more] eqn:EF; [left; exact HB|].
+  pose proof (filter_head_nonempty _ _ _ EF) as Hs1.
+  match goal with |- context [t_poll_write ?o w] =>
+    assert (Ho : o <> []) by (destruct (vectored w); [destruct s1; [contradiction|discriminate]|exact Hs1]);
+    revert Ho; generalize o end. intros offer Ho.
+  destruct (t_poll_write offer w) as [p w1] eqn:ET.
+  destruct (tpw_B _ _ _ _ HB Ho ET) as [(B1 & [->|(n & -> & Hn)])|(A1 & [->| ->])].
+  - rewrite on_wake_false. apply IH. exact B1.
+  - destruct (N.eqb_spec n 0) as [|_]; [contradiction|]. apply IH. exact B1.
+  - change (0 =? 0) with true. cbv iota. right. split; [exact A1|]. exists EK_WriteZero. split; [reflexivity|exact nab_wz].
+  - right. split; [exact A1|]. exists EK_Transport. split; [reflexivity|exact nab_tr].
+Qed.
+
+Lemma writer_write_all_B fuel : forall stype id data w, Bef w -> rpostB E_opt (writer_write_all fuel stype id data w).
+Proof.
+  induction fuel as [|f IH]; intros stype id data w HB; [exact HB|]. rewrite writer_write_all_S.
+  destruct data as [|x data']; [left; exact HB|]. cbv zeta.
+  set (n := N.min (len (x :: data')) 65535).
+  pose proof (write_slices_B (io_fuel w (n + 300)) [hdr_encode stype id n (auto_padding n); take n (x :: data'); zeros (auto_padding n)] w HB) as WS.
+  destruct (write_slices _ _ w) as [[e|] w'|o w']; cbn [rpostB] in *.
+  - exact WS.
+  - destruct WS as [B1|(_ & e & E & _)]; [|discriminate E]. apply IH. exact B1.
+  - exact WS.
+Qed.
+
+Definition E_h (xr : (N * N + N) * rstate) : Prop := exists e, fst xr = inr e /\ nab e.
+
+Lemma Bef_ev w e : Bef w -> Bef (w_ev w e).
+Proof. apply Bef_ws. reflexivity. Qed.
+Lemma Aft_ev w e : Aft w -> Aft (w_ev w e).
+Proof. apply Aft_ws. reflexivity. Qed.
+
+Lemma run_handler_B fuel : forall script r w, prop_script script -> Bef w -> rpostB E_h (run_handler maxc fuel script r w).
+Proof.
+  induction fuel as [|f IH]; intros script r w PS HB; [exact HB|].
+  inversion PS as [|s rest PS'|s n rest PS'|s rest PS'|d c rest|e rest|n rest PS']; subst; cbn [run_handler].
+  - left. apply Bef_ev. exact HB.
+  - destruct (set_stream (rsp r) (Some s)) as [p'| |]; try exact HB. apply IH; [exact PS'|apply Bef_ev; exact HB].
+  - destruct (negb (rwriteable r)); [apply IH; [exact PS'|apply Bef_ev; exact HB]|].
+    pose proof (writer_write_all_B (N.to_nat (n / 65535) + 2) s (r_id (sreq (rsp r))) (take n rest) w HB) as WW.
+    destruct (writer_write_all _ s _ (take n rest) w) as [[e|] w'|o w']; cbn [rpostB] in *.
+    + destruct WW as [B1|(A1 & e' & E & He)]; [left; apply Bef_ev; exact B1|right]. injection E as ->.
+      split; [apply Aft_ev; exact A1|]. exists e'. split; [reflexivity|exact He].
+    + destruct WW as [B1|(_ & e & E & _)]; [|discriminate E]. apply IH; [exact PS'|apply Bef_ev; exact B1].
+    + exact WW.
+  - destruct (rwriteable r); apply IH; try exact PS'; apply Bef_ev; exact HB.
+  - left. apply Bef_ev. exact HB.
+  - left. apply Bef_ev. exact HB.
+  - pose proof (await_input_B (io_fuel w 0) (Some n) r w HB) as AI.
+    destruct (await_input maxc _ (Some n) r w) as [[[[c b]|e] r'] w'|o w']; cbn [rpostB] in *.
+    + destruct AI as [B1|(_ & e & E & _)]; [|discriminate E]. apply IH; [exact PS'|]. apply Bef_ev, Bef_ev. exact B1.
+    + destruct AI as [B1|(A1 & e' & E & He)]; [left; apply Bef_ev, Bef_ev; exact B1|right]. cbn [fst] in E. injection E as ->.
+      split; [apply Aft_ev, Aft_ev; exact A1|]. exists e'. split; [reflexivity|exact He].
+    + exact AI.
+Qed.
+
+Section WithNorm.
+Variable norm : bytes -> bytes.
+
+Lemma parse_request_B fuel : forall p new w, Bef w -> rpostB E_inr (parse_request norm maxc fuel p new w).
+Proof.
+  induction fuel as [|f IH]; intros p new w HB; [exact HB|]. cbn [parse_request].
+  destruct (parse norm maxc p new) as [p' done out|n]; [|exact HB].
+  pose proof (awa_B (io_fuel w (len out)) true out w HB) as W1.
+  destruct (await_write_all _ true out w) as [[e|] w'|o w']; cbn [rpostB] in *.
+  - destruct W1 as [B|(A & _)]; [left; exact B|right; split; [exact A|eexists; reflexivity]].
+  - destruct W1 as [B1|(_ & e & E & _)]; [|discriminate E].
+    destruct done.
+    + destruct (into_stream_parser p') as [s|e]; left; exact B1.
+    + pose proof (await_read_ws (io_fuel w' 0) true (input_space p') w') as AR.
+      destruct (await_read _ true _ w') as [[[|x b]|e] w''|o w'']; cbn [rpostB].
+      * left. eapply Bef_ws; eassumption.
+      * apply IH. eapply Bef_ws; eassumption.
+      * left. eapply Bef_ws; eassumption.
+      * eapply Bef_ws; eassumption.
+  - exact W1.
+Qed.
+
+Lemma fold_ev_ws (env : list (bytes * bytes)) : forall w,
+  wscript (fold_left (fun w p => w_ev (w_ev w (fst p)) (snd p)) env w) = wscript w.
+Proof. induction env as [|x env IH]; intros w; [reflexivity|]. cbn [fold_left]. rewrite IH. reflexivity. Qed.
+
+Lemma run_loop_B scripts : Forall prop_script scripts -> forall fuel p served w, Bef w ->
+  Bef (snd (run_loop norm maxc fuel p scripts served w)) \/ Aft (snd (run_loop norm maxc fuel p scripts served w)).
+Proof.
+  intros HS. induction fuel as [|f IH]; intros p served w HB; [left; exact HB|]. cbn [run_loop].
+  destruct (stopped w); [left; exact HB|].
+  pose proof (parse_request_B (io_fuel w 0) p [] w HB) as PR.
+  destruct (parse_request norm maxc _ p [] w) as [[s0|e] w'|o w']; cbn [rpostB snd] in *.
+  - destruct PR as [B1|(_ & e & E)]; [|discriminate E].
+    match goal with |- context [run_handler maxc ?fu ?sc ?r0 ?w1] =>
+      assert (PS : prop_script sc) by (apply Forall_nth_default; [exact HS|apply Forall_last; [exact HS|constructor]]);
+      assert (B2 : Bef w1) by (eapply Bef_ws; [apply fold_ev_ws|]; apply Bef_ev, Bef_ev; exact B1);
+      pose proof (run_handler_B fu sc r0 w1 PS B2) as RH; destruct (run_handler maxc fu sc r0 w1) as [[st r1] w2|o w2]
+    end; cbn [rpostB snd] in *.
+    + destruct RH as [B3|(A3 & e' & E & He)].
+      * destruct st as [[d c]|e'].
+        -- pose proof (do_close_B r1 d c w2 B3) as DC.
+           destruct (do_close maxc r1 d c w2) as [[rp|e] w3|o w3]; cbn [rpostB snd] in *.
+           ++ destruct DC as [B4|(_ & e & E)]; [|discriminate E]. apply IH. exact B4.
+           ++ destruct DC as [B4|(A4 & _)]; [left; exact B4|right; exact A4].
+           ++ left. exact DC.
+        -- destruct ((e' =? EK_Aborted) && raborted r1); [|left; exact B3].
+           pose proof (do_close_B r1 EXIT_Complete EXIT_ABORT_CODE w2 B3) as DC.
+           destruct (do_close maxc r1 _ _ w2) as [[rp|e] w3|o w3]; cbn [rpostB snd] in *.
+           ++ destruct DC as [B4|(_ & e & E)]; [|discriminate E]. apply IH. exact B4.
+           ++ destruct DC as [B4|(A4 & _)]; [left; exact B4|right; exact A4].
+           ++ left. exact DC.
+      * cbn [fst] in E. subst st. destruct (N.eqb_spec e' EK_Aborted) as [Ha|_]; [contradiction (He Ha)|].
+        cbn [andb snd]. right. exact A3.
+    + left. exact RH.
+  - destruct PR as [B1|(A1 & _)]; [left; exact B1|right; exact A1].
+  - left. exact PR.
+Qed.
+End WithNorm.
+End WithMaxc.
+End PartB.
+
+(* ================================================================================================ *)
+(* Examples                                                                                         *)
+(* ================================================================================================ *)
+(* Part A: a Responder request whose handler reads 2 bytes of stdin (after two spurious wake-ups of the transport),
+   writes one byte to stdout (after a wake-up of the writer) and exits.  In the second world a shutdown is requested
+   before the task's second poll: same result, same observations, same bytes on the wire; only the bookkeeping
+   differs (stopped). *)
+Definition exA_stdin : bytes := [1; 5; 0; 1; 0; 3; 5; 0; 97; 98; 99; 0; 0; 0; 0; 0].
+Definition exA_r : rstate := mkR (new_sparser 64 (mkReq 1 1 1 [])) true false false.
+Definition exA_w (stop_at : N) : world := mkW [0; 3; 0] [0; 4] [(0, 0, exA_stdin)] [] 0 1 stop_at false false [].
+Definition exA_script : list N := [1; 2; 6; 6; 1; 33; 8; 0; 0].
+
+Example handler_ignores_stop_example :
+  same_mod_stop (exA_w 0) (exA_w 2) /\
+  exists r' w1' w2',
+    run_handler 10 7 exA_script exA_r (exA_w 0) = Ok (inl (0, 0), r') w1' /\
+    run_handler 10 7 exA_script exA_r (exA_w 2) = Ok (inl (0, 0), r') w2' /\
+    same_mod_stop w1' w2' /\ stopped w1' = false /\ stopped w2' = true /\
+    events w1' = [[8]; [6; 0]; [97; 98]; [1; 1; 2]] /\
+    wlog w1' = [1; 6; 0; 1; 0; 1; 7; 0; 33; 0; 0; 0; 0; 0; 0; 0].
+Proof.
+  split; [repeat split|]. do 3 eexists. split; [vm_compute; reflexivity|].
+  split; [vm_compute; reflexivity|]. repeat split.
+Qed.
+
+(* the same request when the client sends only part of a GetValues record and waits for a reply the server does
+   not owe: the handler's read suspends for good, shutdown requested (second world: before poll 7) or not *)
+Definition exA_gv : bytes := [1; 9; 0; 0; 0; 16; 0; 0; 14; 0; 70; 67; 71; 73; 95; 77; 65; 88; 95; 67; 79; 78; 78; 83].
+Definition exA_wb (stop_at : N) : world :=
+  mkW [0; 3; 0] [] [(0, 0, take 13 exA_gv); (1, 0, drop 13 exA_gv)] [] 0 1 stop_at false false [].
+
+Example handler_block_example :
+  exists w1' w2',
+    run_handler 10 7 [1; 5; 8; 0; 0] exA_r (exA_wb 0) = Halt ODeadlock w1' /\
+    run_handler 10 7 [1; 5; 8; 0; 0] exA_r (exA_wb 7) = Halt ODeadlock w2' /\
+    same_mod_stop w1' w2' /\ stopped w1' = false /\ stopped w2' = true /\ epoch w2' = epoch w1' + 1.
+Proof.
+  do 2 eexists. split; [vm_compute; reflexivity|]. split; [vm_compute; reflexivity|]. repeat split.
+Qed.
+
+(* Part B: the keep-alive client of ConnTotal.ex_world; the handler writes two bytes to stdout and exits.  The
+   transport accepts 3 bytes of the record header and fails the next write call: the handler's write returns the
+   error, the task ends, and the rest of the write script ([5; 7]) is never consulted; the log holds the 3 bytes. *)
+Definition exB_script : list N := [6; 6; 2; 104; 105; 8; 0; 0].
+Definition exB_w (fault : N) : world := ex_world 1 0 [] [3; fault; 5; 7].
+
+Example nothing_after_failed_write_example : forall fault, fault = W_ERR \/ fault = W_ZERO ->
+  let w' := snd (run_loop (fun b => b) 10 (nb (exB_w fault) + 4) (new_parser 0) [exB_script] 0 (exB_w fault)) in
+  wscript w' = [5; 7] /\ wlog w' = [1; 6; 0].
+Proof. intros fault [-> | ->]; vm_compute; split; reflexivity. Qed.
+
+(* ... and the hypotheses of the theorem hold for it *)
+Example nothing_after_failed_write_instance :
+  Forall prop_script [exB_script] /\ wscript (exB_w W_ERR) = [3] ++ W_ERR :: [5; 7] /\ no_fault [3] /\ plain_fault W_ERR.
+Proof.
+  split.
+  { constructor; [|constructor]. unfold exB_script. apply PS_write. change (drop 2 [104; 105; 8; 0; 0]) with [8; 0; 0]. apply PS_exit. }
+  split; [reflexivity|]. split; [|right; reflexivity].
+  constructor; [|constructor]. repeat split; discriminate.
+Qed.
+
+(* ================================================================================================ *)
+(* The theorems                                                                                     *)
+(* ================================================================================================ *)
 Theorem handler_ignores_stop : handler_ignores_stop_stmt.
 Proof.
   intros maxc f script r w1 w2 x w1' HS E. pose proof (sim_run_handler maxc f script r w1 w2 HS) as H.
@@ -894,3 +1305,13 @@ Proof.
   rewrite E in H. exact H.
 Qed.
 Print Assumptions handler_block.
+
+Theorem nothing_after_failed_write : nothing_after_failed_write_stmt.
+Proof.
+  intros norm maxc fuel p scripts served w pre k post HS Hw Hnf Hk w'.
+  assert (HB : Bef k post w) by (exists pre; split; assumption).
+  destruct (run_loop_B k post Hk maxc norm scripts HS fuel p served w HB) as [(s & E & _)|A].
+  - left. exists s. exact E.
+  - right. exact A.
+Qed.
+Print Assumptions nothing_after_failed_write.
